@@ -17,7 +17,10 @@ class Prop:
                  exhaustive=None, trusted=None, assumptions=None, rtol=1e-9, atol_rel=1e-12,
                  finding_key=None, oracle=None, oracle_finish=None, def_ops=None, allow_badop=False,
                  compare_op=None, semantic_names=False, correspondence_only=None, cond_rescue=False,
-                 segment_scale=False, line_scale=None):
+                 segment_scale=False, line_scale=None, sort_names=False):
+        # True: dual numbers are compared with their variables in NAME order (the internal order of a result's
+        # variable list is not an observable of any property)
+        self.sort_names = sort_names
         # optional stateful object with .feed(toks) -> float: an op-specific magnitude (fed every op line in order)
         # that the absolute part of the tolerance is taken relative to, besides the magnitudes on the answer line
         self.line_scale = line_scale
@@ -300,7 +303,7 @@ def _cls_c19(t, impl):
     return None, False
 
 
-PROPS["C03"] = Prop(
+PROPS["C03"] = Prop(sort_names=True,
     rule="EXHAUSTIVE layouts: every ordered pair of duplicate-free variable lists over a pool of 3 (quick; 16x16) or 4 "
          "(thorough, 1/3 sample of 65x65) names x shared/unshared storage where the lists are equal x {+,-,*,%,==,!=} x "
          "{Dual, Dual2}, values small dyadic rationals (exact arithmetic, bit comparison of value, per-name gradient, "
@@ -308,20 +311,20 @@ PROPS["C03"] = Prop(
          "non-trivial = every op line",
     classify=_cls_c03, exhaustive=lambda tier: tier == "quick", trusted=_dual_trusted, assumptions=_dual_assume)
 
-PROPS["C17"] = Prop(
+PROPS["C17"] = Prop(sort_names=True,
     rule="every stored order over a pool of 4 names (quick: 1/4 of the 65 stored lists; thorough: all) against ALL 65 "
          "requested duplicate-free lists for gradient1 (Dual and Dual2), gradient2 and gradient1_manifold; random Dual2 "
          "pairs for the manifold product rule (model-free oracle). non-trivial = non-empty request",
     classify=_cls_c17, mode="vexact", exhaustive=lambda tier: tier == "thorough", trusted=_dual_trusted,
     assumptions=_dual_assume, oracle=_oracle_c17)
 
-PROPS["C18"] = Prop(
+PROPS["C18"] = Prop(sort_names=True,
     rule="EXHAUSTIVE over kind x kind x operator: 20 values (8 floats incl. +-0, 6 Dual, 6 Dual2, some sharing storage) "
          "all ordered pairs x {+,-,*,/,%} through the Number container, 6 comparisons, float on either side, "
          "set_order(_clone) to orders 0/1/2 with 5 name lists, From conversions; refusal observed via catch_unwind",
     classify=_cls_c18, mode="vexact", exhaustive=lambda tier: True, trusted=_dual_trusted, assumptions=_dual_assume)
 
-PROPS["C19"] = Prop(
+PROPS["C19"] = Prop(sort_names=True,
     rule="random Dual/Dual2 pairs over all layouts of a 3-name pool with all sign combinations: 6 comparisons, float "
          "comparisons on both sides, abs, signum, % in the three operand forms, zero/one neutrality, sums of length 0..8 "
          "(typed and through Number). non-trivial = every op line",
@@ -343,7 +346,7 @@ _formula_rule = ("random formulas (depth 1-6) over + - * / neg pow exp log ncdf 
                  "differentiable domain, owned/borrowed operand forms varied by position; compared close-float (1e-9 rel): "
                  "value, gradient by name%s. non-trivial = >= 2 operators and >= 2 dual leaves")
 
-PROPS["C01"] = Prop(rule=_formula_rule % "", classify=_cls_formula, mode="close", cond_rescue=True, exhaustive=lambda tier: False,
+PROPS["C01"] = Prop(rule=_formula_rule % "", classify=_cls_formula, mode="close", cond_rescue=True, sort_names=True, exhaustive=lambda tier: False,
                     trusted=_dual_trusted + ["statrs erfc/erfc_inv ported to Lean Float for the driver; Φ, Φ⁻¹ abstract in the theorems",
                                              "glibc exp/log/pow on both sides"],
                     assumptions=_dual_assume + ["theorems hold where the formula is differentiable (Dom)"])
@@ -599,7 +602,7 @@ def _key_c02(t, il, ml):
 
 
 PROPS["C02"] = Prop(rule=_formula_rule % ", Hessian by name pair, gradient2 read-back, conversion down to first order",
-                    classify=_cls_formula, mode="close", cond_rescue=True, line_scale=_FormulaScale(), exhaustive=lambda tier: False, oracle=_oracle_c02,
+                    classify=_cls_formula, mode="close", cond_rescue=True, sort_names=True, line_scale=_FormulaScale(), exhaustive=lambda tier: False, oracle=_oracle_c02,
                     finding_key=_key_c02,
                     trusted=_dual_trusted + ["statrs erfc/erfc_inv ported to Lean Float for the driver"],
                     assumptions=_dual_assume)
